@@ -159,6 +159,9 @@ func c08Check(c *Case) []Violation {
 	if c.Kind == "frequency" {
 		return c08CheckFrequency(c)
 	}
+	if c.Kind == "real-history" {
+		return c08History(c)
+	}
 	if c.Kind == "real-independence" {
 		a, _ := c08ObserveRaw(asM(roundTrip(c.Req)), nil)
 		b, _ := c08ObserveRaw(asM(roundTrip(c.Params["reference_request"])), nil)
@@ -268,6 +271,40 @@ func c08CheckList(c *Case, list []c08Entry, draws []float64) (*c08Obs, []Violati
 		}
 	}
 	return o, vs
+}
+
+// c08History: prefixes of the list first, the list last in this process; the list first, its prefixes last in a fresh one.
+func c08History(c *Case) []Violation {
+	req := asM(roundTrip(c.Req))
+	bs := asL(req["biases"])
+	var reqs []M
+	var here []string
+	for n := 1; n <= len(bs); n++ {
+		r := asM(deepCopy(req))
+		r["biases"] = bs[:n]
+		reqs = append(reqs, M(r))
+		here = append(here, bodyHash(Decide(J(r), nil).Body))
+	}
+	rev := make([]M, len(reqs))
+	for i := range reqs {
+		rev[len(reqs)-1-i] = reqs[i]
+	}
+	ans, err := freshAnswers(rev)
+	if err != nil {
+		stat("fresh_process_unavailable")
+		if cur != nil {
+			cur.Exhaustive = false
+			cur.Notes = append(cur.Notes, "fresh-process comparison skipped: "+err.Error())
+		}
+		return nil
+	}
+	stat("fresh_process_requests")
+	for i := range reqs {
+		if ans[len(reqs)-1-i].Hash != here[i] {
+			return []Violation{viol(c, "C08/firing-depends-on-history", "the first %d entries of this list are answered differently here (after the shorter lists with the same biasApplyRandomSeed) and by a fresh process that met the longer lists first", i+1)}
+		}
+	}
+	return nil
 }
 
 func c08CheckFrequency(c *Case) []Violation {
@@ -418,6 +455,24 @@ func c08Run(s *Shard) {
 		for _, pv := range probVecs {
 			var first []bool
 			var firstReq M
+			{
+				// the same list cut to its first one and first two entries is served BEFORE the full list here and AFTER
+				// it by a fresh process: which positions fire must not depend on the list lengths this seed met before
+				var bs L
+				for pos := 0; pos < 3; pos++ {
+					b := M{"name": realKinds[0]["name"], "props": realKinds[0]["props"]}
+					if pv[pos] >= 0 {
+						b["applyProbability"] = pv[pos]
+					}
+					bs = append(bs, b)
+				}
+				req := c08Request(nil, seed)
+				req["biases"] = bs
+				c := &Case{Prop: "C08", Kind: "real-history", Req: req}
+				s.Evals += 3
+				s.Begin(c)
+				s.Report(c08Check(c))
+			}
 			Product([]int{len(realKinds), len(realKinds), len(realKinds)}, func(ki []int) {
 				var bs L
 				for pos, k := range ki {
